@@ -115,8 +115,10 @@ Expression * ParseExpression::assertTypeUniform(Expression * exp, const Type& ty
  * Member operator for an element: is the precedence with the highgest priority
  * The member operator could be recursive.
  */
-Expression * ParseExpression::member(Expression * exp)
+Expression * ParseExpression::member(Expression *& exp)
 {
+  /* the caller's pointer follows the chain as it grows: each new member owns
+   * the previous element, so the caller frees the whole chain on failure */
   try
   {
     bool done = false;
